@@ -3,15 +3,15 @@ open Lean
 
 namespace Drv
 
+/-- every area contributes a partial dispatcher `String → Json → Option (Except String Json)`;
+    add new areas to this list (one line each) -/
+def dispatchers : List (String → Json → Option (Except String Json)) :=
+  [ dispatchReg ]
+
 def dispatch (op : String) (inp : Json) : Except String Json :=
-  match op with
-  | "reg_history" => regHistory inp
-  | "for_issued" => forIssued inp
-  | "witness_new" => witnessNew inp
-  | "witness_update" => witnessUpdate inp
-  | "merge" => mergeOp inp
-  | "tails" => tailsOp inp
-  | _ => .error s!"unknown op {op}"
+  match dispatchers.findSome? (fun d => d op inp) with
+  | some r => r
+  | none => .error s!"unknown op {op}"
 
 def handleLine (line : String) : String :=
   match Json.parse line with
